@@ -24,6 +24,7 @@ type lcParams struct {
 	mw          bool
 	children    bool
 	stopCrash   bool // receivers may panic while handling Stopped
+	internal    bool // some crashes carry *actor.InternalError
 }
 
 type lcClientOp struct {
@@ -87,12 +88,18 @@ func genLifecycle(rc *core.RunCtx, env *Env, p lcParams) *lcScenario {
 				if budgetLeft[id] <= 0 && id != exceedTarget {
 					break
 				}
-				if g.Bool(0.5) {
-					sp.PanicInit[inc] = true
-				} else {
-					sp.PanicStarted[inc] = true
+				// mostly the next incarnation in a row, sometimes a later one (which
+				// is only reached after crashes on user messages)
+				at := inc
+				if g.Bool(0.3) {
+					at = inc + g.Range(1, 2)
 				}
-				inc++
+				if g.Bool(0.5) {
+					sp.PanicInit[at] = true
+				} else {
+					sp.PanicStarted[at] = true
+				}
+				inc = at + 1
 				budgetLeft[id]--
 				sc.crashN[id]++
 			}
@@ -112,6 +119,7 @@ func genLifecycle(rc *core.RunCtx, env *Env, p lcParams) *lcScenario {
 	if rc.Tier == "thorough" {
 		maxOps = 16
 	}
+	internalN := map[string]int{}
 	senderPool := []*actor.PID{nil, actor.NewPID("local", "ext/1"), actor.NewPID("local", "ext/2")}
 	for c := 0; c < nclients; c++ {
 		var ops []lcClientOp
@@ -134,7 +142,11 @@ func genLifecycle(rc *core.RunCtx, env *Env, p lcParams) *lcScenario {
 				perTarget[tgt]++
 				if p.crashes && g.Bool(0.25) {
 					root := tgt
-					if budgetLeft[root] > 0 || root == exceedTarget {
+					if p.internal && internalN[root] < 3 && g.Bool(0.5) {
+						m.Op, m.Internal = cPanic, true
+						internalN[root]++
+						sc.crashN[root]++
+					} else if budgetLeft[root] > 0 || root == exceedTarget {
 						m.Op = cPanic
 						budgetLeft[root]--
 						sc.crashN[root]++
@@ -409,7 +421,20 @@ func lcOracles(rc *core.RunCtx, env *Env, sc *lcScenario, mon *Monitor, p lcPara
 		n := 0
 		for _, inc := range in.Incs {
 			for _, d := range inc {
-				if d.Panicked && d.Kind != dStopped {
+				if d.Panicked && d.Kind != dStopped && !(d.Msg != nil && d.Msg.Internal) {
+					n++
+				}
+			}
+		}
+		return n
+	}
+	// crashes with *actor.InternalError: restart without using the budget and
+	// without ActorRestartedEvent
+	internalOf := func(in *Info) int {
+		n := 0
+		for _, inc := range in.Incs {
+			for _, d := range inc {
+				if d.Panicked && d.Kind == dUser && d.Msg != nil && d.Msg.Internal {
 					n++
 				}
 			}
@@ -506,6 +531,9 @@ func lcOracles(rc *core.RunCtx, env *Env, sc *lcScenario, mon *Monitor, p lcPara
 				for _, d := range inc {
 					if d.Seq > nextStart {
 						rc.Violate2("C04", "old-incarnation-after-new", "%s inc %d got %s after inc %d was initialised", id, i, dNames[d.Kind], i+1)
+						if d.Kind == dUser {
+							rc.Violate2("C05", "delivered-to-failed-incarnation", "%s: %s went to incarnation %d although incarnation %d had already been initialised", id, d.Msg, i, i+1)
+						}
 					}
 				}
 			}
@@ -651,8 +679,8 @@ func lcOracles(rc *core.RunCtx, env *Env, sc *lcScenario, mon *Monitor, p lcPara
 				}
 				if !exceeded {
 					// every crash is followed by a fresh initialised incarnation
-					if len(in.Incs) != ncrash+1 {
-						rc.Violate2("C05", "incarnation-count", "%s: %d crashes but %d incarnations", id, ncrash, len(in.Incs))
+					if len(in.Incs) != ncrash+internalOf(in)+1 {
+						rc.Violate2("C05", "incarnation-count", "%s: %d crashes but %d incarnations", id, ncrash+internalOf(in), len(in.Incs))
 					}
 					if last := in.Incs[len(in.Incs)-1]; len(last) < 2 || last[0].Kind != dInit || last[1].Kind != dStarted {
 						rc.Violate2("C05", "restarted-incarnation-not-started", "%s: last incarnation trace: %s", id, traceOf(last))
@@ -820,6 +848,14 @@ func init() {
 		Run: runLifecycle(lcParams{focus: "C04", stops: true, crashes: true, lifeCrashes: true, children: true, exceed: true}),
 		Doc: base + "as 'lifecycle', with one actor driven beyond its restart budget (the incarnation that ends by exhausting the budget must also get exactly one final Stopped)",
 		Faults: []string{"actor-crash-in-Initialized", "actor-crash-in-Started", "actor-crash-in-Receive", "restart-budget-exceeded", "concurrent stop/poison"}})
+	core.Register(&core.Profile{Property: "C04", Name: "internal-error", Weight: 1, Cfg: cfgEngine,
+		Run: runLifecycle(lcParams{focus: "C04", stops: true, crashes: true, lifeCrashes: true, internal: true}),
+		Doc: base + "as 'lifecycle', with receivers that panic with *actor.InternalError (the restart path that bypasses the budget): that incarnation too gets exactly one final Stopped before the next one is produced",
+		Faults: []string{"actor-crash-InternalError", "actor-crash-in-Initialized", "actor-crash-in-Started", "actor-crash-in-Receive", "concurrent stop/poison"}})
+	core.Register(&core.Profile{Property: "C05", Name: "restart-internal-error", Weight: 1, Cfg: cfgEngineSkip,
+		Run: runLifecycle(lcParams{focus: "C05", crashes: true, lifeCrashes: true, internal: true}),
+		Doc: base + "as 'restart', with crashes carrying *actor.InternalError mixed in: fresh receiver, buffered messages delivered exactly once, no ActorRestartedEvent and no budget used for those",
+		Faults: []string{"actor-crash-InternalError", "actor-crash-in-Initialized", "actor-crash-in-Started", "actor-crash-in-Receive"}})
 	core.Register(&core.Profile{Property: "C05", Name: "restart", Weight: 4, Cfg: cfgEngineSkip,
 		Run: runLifecycle(lcParams{focus: "C05", crashes: true, lifeCrashes: true}),
 		Doc: base + "crashes within the restart budget at every batch position (batch knob) and in Initialized/Started, senders continuing during the restart delay; oracle: no un-recovered panic, Stopped to the failed incarnation, one ActorRestartedEvent per crash with Restarts=1..n, fresh Initialized+Started, every accepted message delivered exactly once in per-sender order, queued-before-crash ahead of sent-after-crash, crashing message not redelivered",
